@@ -58,6 +58,15 @@ class Base:
         w = v * 2 + RECV.k
         return w
 
+    def __setitem__(self, key, value):
+        self.__dict__.setdefault("items_", {})[key] = value
+
+    def smeth(RECV, v):
+        # stores into the receiver by subscript before the focus variable is set
+        RECV[0] = v
+        w = v + RECV.k + 900
+        return w
+
     def relay(RECV, others, v):
         # re-entered on the next receiver *before* this call's own w is assigned
         if others:
@@ -120,6 +129,8 @@ class FalsyList(list):
         self.k = k
 
     meth = Base.meth
+    smeth = Base.smeth
+    __setitem__ = Base.__setitem__
     relay = Base.relay
     dmeth = Base.dmeth
     prop = Base.prop
@@ -166,7 +177,7 @@ CLASSES = ["Base", "Sub", "EqAll", "EqNoHash", "Falsy", "FalsyList", "Over"]
 def expected_w(kind, k, v, cls=None):
     if cls == "Over" and kind == "meth":
         return v + k + 500
-    return {"meth": v + k, "dmeth": v * 2 + k, "prop": k + 100, "dprop": k + 200}[kind]
+    return {"meth": v + k, "dmeth": v * 2 + k, "prop": k + 100, "dprop": k + 200, "smeth": v + k + 900}[kind]
 
 
 def check_case(recv, pop, calls, sel, rec=None):
@@ -363,7 +374,7 @@ def strategy():
         pop = [(draw(st.sampled_from(CLASSES + ["EqAll", "EqNoHash", "EqAll"])), draw(st.integers(0, 3))) for _ in range(n)]
         path = draw(st.sampled_from(["class", "subclass", "object", "object", "dotted", "nested", "relay", "relay-nested",
                                      "relay-class", "implicit", "implicit-plain", "overclass"]))
-        kind = draw(st.sampled_from(["meth", "meth", "dmeth", "prop", "dprop"]))
+        kind = draw(st.sampled_from(["meth", "meth", "dmeth", "prop", "dprop", "smeth"]))
         ti = draw(st.integers(0, n - 1))
         if path in ("object", "dotted") and kind in ("prop", "dprop"):
             kind = "meth"  # obj.prop would evaluate the property
@@ -384,7 +395,7 @@ def strategy():
             elif c == 3 and path == "implicit-plain":
                 calls.append(("plain", draw(st.integers(0, 5))))
             else:
-                ck = kind if draw(st.integers(0, 2)) else draw(st.sampled_from(["meth", "dmeth", "prop", "dprop"]))
+                ck = kind if draw(st.integers(0, 2)) else draw(st.sampled_from(["meth", "dmeth", "prop", "dprop", "smeth"]))
                 calls.append(("m", draw(st.integers(0, n - 1)), ck, draw(st.integers(0, 5))))
         second = draw(st.integers(0, n - 1)) if path == "object" and draw(st.booleans()) else None
         if second == ti:
